@@ -23,6 +23,16 @@ def run(ctx):
     rnd = random.Random(ctx.seed)
     # (M) CurveP.tla is a group law on every non-singular curve over the small fields
     ctx.add_tlc(core.tlc_or_die(ctx.workdir, "GroupModel", model_cfg([5, 7] if quick else [5, 7, 11], 12), tag="grp", timeout=3000))
+    # (M) design layer: the code's Jacobian formulas (Jacobi.tla) refine the textbook law on every curve over the small fields;
+    # the pre-repair variant (H, r of the Z = 1 formula tested unreduced, F4) must be refuted
+    jcfg = ("INIT Init\nNEXT Next\nCHECK_DEADLOCK FALSE\nCONSTANTS Primes = {%s}\n MaxK = %d\n ReduceHR = %s\n"
+            "INVARIANT AddRefines\nINVARIANT DblRefines\nINVARIANT EqRefines\nINVARIANT ScaleNegRefine\nINVARIANT NafFacts\n"
+            "INVARIANT MulNafRefines\n")
+    ctx.add_tlc(core.tlc_or_die(ctx.workdir, "JacobiModel", jcfg % ("5, 7" if quick else "5, 7, 11", 20 if quick else 40, "TRUE"),
+                                tag="jac", timeout=3000))
+    rb = core.tlc(ctx.workdir, "JacobiModel", jcfg % ("5", 4, "FALSE"), tag="jacbroken", timeout=600)
+    if "AddRefines" not in rb.invariant_violated:
+        raise core.MachineryFailure("the unreduced (pre-repair) Z = 1 addition formula was not refuted by AddRefines")
     jobs = []
     reps_full = [(ra, rb) for ra in (("jac", 1), ("jac", 2), ("jac", 3), "aff") for rb in (("jac", 1), ("jac", 2), ("jac", 3), "aff")]
     for p in ([5, 7] if quick else [5, 7, 11, 13]):
@@ -60,9 +70,19 @@ def run(ctx):
     ctx.add_stats(st)
     ctx.traces += len(events)
     ctx.nontrivial_n = len({(e["c"]["p"], e["c"]["a"], e["c"]["b"], e["op"], tuple(e["A"]["t"]), tuple(e["B"]["t"])) for e in events})
+    ndrift = 0
     for ix, clause in bad:
+        names = clause[0][1] if clause else []
+        if any(str(c_).startswith("DRIFT") for c_ in names):
+            ndrift += 1
+            if ndrift <= 3:
+                ctx.note("DRIFT (not an alarm): the raw result triple differs from Jacobi.tla's formulas: %s" % describe(events[ix])[:300])
+            clause = [("set", [c_ for c_ in names if not str(c_).startswith("DRIFT")])]
+            if not clause[0][1]:
+                continue
         ctx.violation("%s: %s" % (clause[0][1] if clause else clause, describe(events[ix])),
                       {"event": events[ix]}, keys=keys[ix])
+    ctx.extra["drift_events"] = ndrift
     for ix in (0, len(events) // 2, len(events) - 1):
         ctx.sample(events[ix])
     ctx.rule = ("events = +, ==/!=, double, negation, to_affine, x()/y(), scale() on real PointJacobi / legacy Point objects; "
